@@ -250,6 +250,86 @@ def e_dedup(k: int) -> bool:
         return ok
 
 
+# --------------------------------------------------------------------------- non-destructive commands overlapping in time (C02 quantifier)
+OV_PAIRS = [('A', 'A'), ('A', 'B'), ('A', 'C'), ('B', 'C')]
+OV_DELAYS = [[0], [0, 2, 1], [3, 0, 0, 1], [1, 0, 2, 0, 0, 4]]
+
+
+def overlap_case(kind, pair_i, f1, f2, di, conc):
+    """Two non-destructive commands run at the same time against one store (backend calls interleaved by the latency
+    pattern): two snapshots by two clients, two snapshots on ONE client object, snapshot || restore, snapshot || listings.
+    Afterwards every snapshot restores exactly and the overlapped restore wrote exactly the captured bytes."""
+    import asyncio
+    import contextlib
+    import io
+    with world.scratch('c02o') as d:
+        h = History(d, encrypted=True, concurrent=conc, delays=OV_DELAYS[di])
+        base = h.snapshot('A', 0)
+        u1, u2 = OV_PAIRS[pair_i]
+        srcs = []
+        for j, fs in enumerate((f1, f2)):
+            src = d / f'ov{j}'
+            src.mkdir()
+            for name, data in FILESETS[fs].items():
+                (src / name).write_bytes(data)
+            srcs.append(src)
+        r1 = fresh_repo(h.U, u1, h.be, concurrent=conc)
+        r2 = r1 if kind == 1 else fresh_repo(h.U, u2 if kind in (0, 1) else 'A', h.be, concurrent=conc)
+        out = d / 'ov_out'
+        buf = io.StringIO()
+
+        async def both():
+            if kind in (0, 1):
+                return await asyncio.gather(r1.snapshot(paths=[srcs[0]]), r2.snapshot(paths=[srcs[1]]))
+            if kind == 2:
+                return await asyncio.gather(r1.snapshot(paths=[srcs[0]]), r2.restore(snapshot_regex='^' + base.name + '$', path=out))
+            # (each listing from its own client object, like separate processes: the inline runtime cannot interleave two
+            # loader 'threads' of one object)
+            r3 = fresh_repo(h.U, 'A', h.be, concurrent=conc)
+            return await asyncio.gather(r1.snapshot(paths=[srcs[0]]), r2.list_snapshots(), r3.list_files())
+        try:
+            with contextlib.redirect_stdout(buf):
+                res = h.run(both())
+        except Exception as e:
+            return False, f'overlapping commands raised {e!r}'
+        owners = [u1, (u1 if kind == 1 else u2)]
+        for j, r in enumerate(res[:2 if kind in (0, 1) else 1]):
+            files = {str((srcs[j] / n).resolve()): data for n, data in FILESETS[(f1, f2)[j]].items()}
+            h.snaps.append({'name': r.name, 'owner': owners[j], 'files': files, 'alive': True, 'chunks': list(r.chunks), 'fs': (f1, f2)[j]})
+        if kind in (0, 1) and res[0].name == res[1].name:
+            return False, 'two snapshots taken at the same time got the same name'
+        if kind == 2:
+            got = {'/' + k: v[0] for k, v in world.tree_state(out).items()}
+            if got != h.snaps[0]['files']:
+                return False, f'restore overlapping a snapshot wrote {sorted(got)} instead of the captured files'
+        if kind == 3 and base.name not in buf.getvalue():
+            return False, 'listing overlapping a snapshot does not show the existing snapshot'
+        ok, msg = h.verify_restorable()
+        if not ok:
+            return False, msg
+        for s_ in h.snaps:
+            for dg in s_['chunks']:
+                if h.repos[s_['owner']]._chunk_digest_to_location(dg) not in h.be.objs:
+                    return False, 'a referenced chunk is missing'
+        if h.be.max_inflight > 2 * conc:
+            return False, f'{h.be.max_inflight} calls in flight for two commands with concurrency {conc}'
+        return True, ''
+
+
+def e_overlap(k: int) -> bool:
+    """
+    pre: shard(4 * 4 * 4 * 4 * 4 * 2)[0] <= k < shard(4 * 4 * 4 * 4 * 4 * 2)[1]
+    post: _
+    """
+    kind, pi, f1, f2, di, ci = digits(k, [4, 4, 4, 4, 4, 2])
+    with NoTracing():
+        ok, msg = overlap_case(kind, pi, f1, f2, di, [1, 3][ci])
+        tick('e_overlap', [kind, OV_PAIRS[pi], f1, f2, di, ci])
+        if not ok:
+            _say(msg)
+        return ok
+
+
 # --------------------------------------------------------------------------- bulk garbage collection (C08_d): thousands of chunks in one command
 BULK_N = [3900, 4010, 8100, 15000]     # bytes of the big file; with 4..8-byte chunks roughly 975, 1003, 2025, 3750 distinct chunks
 
